@@ -4,6 +4,8 @@
 -/
 import Model.RunLoop
 import Proofs.RunLoop
+import Model.Matcher
+import Proofs.Matcher
 
 namespace Props.C13
 open Model.Scan Model.Run Proofs.Run
@@ -47,6 +49,23 @@ theorem c13_stop_ends_run (m : MatcherSem σ) (scan : St) (cwnm ku : Bool) (endI
   have e2 : (none == some 1 || none == some 0) = false := by simp
   simp only [runFrom, e2, Bool.false_eq_true, if_false, hs, if_true]
   split <;> refine ⟨rfl, ?_⟩ <;> (unfold accStep; split <;> (try split) <;> rfl)
+
+/-- `stop()`: once the stop flag is set, no later component of the line is evaluated (the view is
+    returned untouched) and the line is not matched; a stop set by the *last* component is not
+    seen by this loop, so that line's verdict stands -/
+theorem c13_stop_cut (env : Model.Interp.Env) (e : Model.Interp.Node) (es : List Model.Interp.Node)
+    (v : Model.Interp.View) (f : Bool) (b : Option String) (h : v.stopped = true) :
+    Model.Interp.matchExprs env (e :: es) v f b = (false, v, b) ∧
+    (v.skip = false → Model.Interp.matchExprs env [] v f b = (!f, v, b)) :=
+  ⟨Proofs.Matcher.matchExprs_stopped env e es v f b h, fun hk => by simp [Model.Interp.matchExprs, hk]⟩
+
+/-- `skip()`: once the skip flag is set, no later component of the line is evaluated, the line is
+    not matched, and the flag is cleared so that the next line proceeds normally -/
+theorem c13_skip_cut (env : Model.Interp.Env) (e : Model.Interp.Node) (es : List Model.Interp.Node)
+    (v : Model.Interp.View) (f : Bool) (b : Option String) (hs : v.stopped = false) (h : v.skip = true) :
+    Model.Interp.matchExprs env (e :: es) v f b = (false, { v with skip := false }, b) ∧
+    Model.Interp.matchExprs env [] v f b = (false, { v with skip := false }, b) :=
+  ⟨Proofs.Matcher.matchExprs_skip env e es v f b hs h, by simp [Model.Interp.matchExprs, h]⟩
 
 /-! Non-vacuity -/
 def adv2 : MatcherSem Nat where
